@@ -13,6 +13,7 @@ import (
 	"fmt"
 	"io"
 	"math/rand"
+	"net"
 	"strings"
 	"sync"
 	"sync/atomic"
@@ -33,6 +34,7 @@ type liveDelegate struct {
 	failOn    map[int]bool
 	failFrom  int // > 0: every pass from this one on fails to start (e.g. the target file was removed)
 	perReqDelay time.Duration
+	emptyOn   map[int]bool // passes that legitimately yield no request at all (an empty target list at that moment)
 	errEvery  int // > 0: an error request (a target that could not be resolved) precedes every errEvery-th request of a pass
 	errsSent  int32
 	mu        sync.Mutex
@@ -66,6 +68,9 @@ func (d *liveDelegate) GenerateRequests(ctx context.Context, r *scan.Range) (<-c
 		}()
 		k := 0
 		for req := range in {
+			if d.emptyOn[pass] {
+				continue
+			}
 			k++
 			if d.errEvery > 0 && k%d.errEvery == 0 {
 				atomic.AddInt32(&d.errsSent, 1)
@@ -103,6 +108,7 @@ type c19case struct {
 	FailPass    int    `json:"delegate_fails_on_pass"` // 0 none
 	FailForever bool   `json:"and_on_every_later_pass,omitempty"`
 	ErrEvery    int    `json:"error_request_before_every_nth,omitempty"`
+	EmptyPass   int    `json:"pass_that_yields_no_request,omitempty"`
 	RandSeed    int64  `json:"rand_seed"`
 }
 
@@ -131,9 +137,13 @@ func c19live(run *vlab.Run, c c19case) {
 	oracle.ExpectSubnetPorts(exp, cidr, nil, ex)
 	perPass := len(exp)
 	if perPass == 0 {
-		return // everything excluded: nothing to observe
+		c19allExcluded(run, c, inner, dst)
+		return
 	}
 	d := &liveDelegate{inner: inner, failOn: map[int]bool{}, closeT: map[int]time.Time{}, perReqDelay: time.Duration(c.PerReqUs) * time.Microsecond, errEvery: c.ErrEvery}
+	if c.EmptyPass > 0 {
+		d.emptyOn = map[int]bool{c.EmptyPass: true}
+	}
 	if c.FailPass > 0 {
 		d.failOn[c.FailPass] = true
 		if c.FailForever {
@@ -256,6 +266,12 @@ func c19live(run *vlab.Run, c c19case) {
 		if d.failOn[p] {
 			continue
 		}
+		if d.emptyOn[p] {
+			if len(got) != 0 {
+				run.Violation("pass-incomplete", fmt.Sprintf("pass %d yields no request, %d came out: %+v", p, len(got), c), c)
+			}
+			continue
+		}
 		if last && c.CancelAfter >= 0 {
 			// the pass in which the cancellation happened may be incomplete, but never over-complete
 			for k, n := range got {
@@ -317,6 +333,65 @@ func c19live(run *vlab.Run, c c19case) {
 	}
 }
 
+// c19allExcluded: every address of the target is excluded, so every pass is empty. Live mode still consists of
+// consecutive passes: the stream stays open (it ends only on cancellation), the delegate keeps being asked, never
+// earlier than the interval, never in a busy loop; cancellation ends the stream.
+func c19allExcluded(run *vlab.Run, c c19case, inner scan.RequestGenerator, dst *net.IPNet) {
+	ctx, cancel := context.WithCancel(context.Background())
+	defer cancel()
+	d := &liveDelegate{inner: inner, failOn: map[int]bool{}, closeT: map[int]time.Time{}}
+	interval := time.Duration(c.IntervalMs) * time.Millisecond
+	live := scan.NewLiveRequestGenerator(d, interval)
+	got, closedEarly, closedAfter := 0, false, false
+	_, finished, parked := run.Watch(30*time.Second, "v-byte-cpu/sx/pkg/scan", func() {
+		out, err := live.GenerateRequests(ctx, &scan.Range{DstSubnet: dst})
+		if err != nil {
+			run.Violation("live-start-error", fmt.Sprintf("live generator failed to start: %v: %+v", err, c), c)
+			return
+		}
+		timer := time.After(6*interval + 300*time.Millisecond)
+		for {
+			select {
+			case _, ok := <-out:
+				if !ok {
+					closedEarly = true
+					return
+				}
+				got++
+			case <-timer:
+				cancel()
+				for range out {
+				}
+				closedAfter = true
+				return
+			}
+		}
+	})
+	run.Eval(1)
+	if !finished {
+		if parked {
+			run.Violation("stream-not-closed", fmt.Sprintf("the live request stream did not end after cancellation (every pass empty): %+v", c), c)
+		} else {
+			run.Inconclusive("live run with empty passes still going")
+		}
+		return
+	}
+	calls := int(atomic.LoadInt32(&d.calls))
+	switch {
+	case closedEarly:
+		run.Violation("live-ended-without-cancel", fmt.Sprintf("the live stream ended on its own after a pass that yielded no request (%d delegate calls): %+v", calls, c), c)
+	case got > 0:
+		run.Violation("pass-incomplete", fmt.Sprintf("%d requests came out although every address is excluded: %+v", got, c), c)
+	case calls < 2:
+		run.Violation("passes-stopped", fmt.Sprintf("only %d pass was started in %v although the scan was not cancelled (every pass is empty, interval %v): %+v", calls, 6*interval+300*time.Millisecond, interval, c), c)
+	case calls > 60+int((6*interval+300*time.Millisecond)/(interval+1)):
+		run.Violation("busy-loop-after-failed-pass", fmt.Sprintf("%d passes were started in %v with interval %v: %+v", calls, 6*interval+300*time.Millisecond, interval, c), c)
+	}
+	_ = closedAfter
+	run.Count("all_excluded_live_runs", 1)
+	run.Count("delegate_calls", int64(calls))
+}
+
 func cap1(n int) int {
 	if n < 200 {
 		return 200
@@ -370,6 +445,14 @@ func TestVerifC19Live(t *testing.T) {
 	for _, ee := range []int{1, 2, 3, 5, 8} {
 		for _, sn := range []string{"10.5.0.0/28", "10.5.1.3/29"} {
 			cases = append(cases, c19case{Subnet: sn, IntervalMs: 5, CancelAfter: -1, MinPasses: 3, ErrEvery: ee, RandSeed: int64(ee)})
+		}
+	}
+	// ---- passes that legitimately yield nothing: the whole target excluded; a target list that is empty on one pass
+	for _, iv := range []int{5, 20, 100} {
+		cases = append(cases, c19case{Subnet: "10.6.0.0/30", Exclude: "10.6.0.0/24\n", IntervalMs: iv, CancelAfter: -1, MinPasses: 3, RandSeed: int64(iv)})
+		cases = append(cases, c19case{Subnet: "10.6.1.7", Exclude: "# all of it\n10.6.1.7\n", IntervalMs: iv, CancelAfter: -1, MinPasses: 3, RandSeed: int64(iv)})
+		for _, ep := range []int{1, 2, 3} {
+			cases = append(cases, c19case{Subnet: "10.6.2.0/29", IntervalMs: iv, CancelAfter: -1, MinPasses: 4, EmptyPass: ep, RandSeed: int64(iv + ep)})
 		}
 	}
 	// ---- a pass that fails to start
